@@ -29,6 +29,17 @@ void __tsan_release(void *addr);
 
 int __real_pthread_create(pthread_t *, const pthread_attr_t *, void *(*)(void *), void *);
 int __real_pthread_join(pthread_t, void **);
+int __real_pthread_mutex_init(pthread_mutex_t *, const pthread_mutexattr_t *);
+int __real_pthread_mutex_destroy(pthread_mutex_t *);
+int __real_pthread_mutex_lock(pthread_mutex_t *);
+int __real_pthread_mutex_trylock(pthread_mutex_t *);
+int __real_pthread_mutex_unlock(pthread_mutex_t *);
+int __real_pthread_cond_init(pthread_cond_t *, const pthread_condattr_t *);
+int __real_pthread_cond_destroy(pthread_cond_t *);
+int __real_pthread_cond_wait(pthread_cond_t *, pthread_mutex_t *);
+int __real_pthread_cond_timedwait(pthread_cond_t *, pthread_mutex_t *, const struct timespec *);
+int __real_pthread_cond_signal(pthread_cond_t *);
+int __real_pthread_cond_broadcast(pthread_cond_t *);
 
 #define MAXT 12
 #define MAXM 24
@@ -38,9 +49,9 @@ int __real_pthread_join(pthread_t, void **);
 
 enum { ST_UNUSED, ST_READY, ST_WAITCOND, ST_DONE };
 enum { OP_NONE, OP_START, OP_LOCK, OP_UNLOCKED, OP_CONDWAIT, OP_SIGNAL, OP_BROADCAST, OP_CREATE, OP_JOIN, OP_YIELD, OP_FINAL,
-       OP_MDESTROY, OP_CDESTROY, OP_MINIT, OP_CINIT, OP_RELOCK, OP_SYS };
+       OP_MDESTROY, OP_CDESTROY, OP_MINIT, OP_CINIT, OP_RELOCK, OP_SYS, OP_PASS };
 static const char *opname[] = { "none", "start", "lock", "unlocked", "cond_wait", "signal", "broadcast", "create", "join", "yield", "final",
-                                "mutex_destroy", "cond_destroy", "mutex_init", "cond_init", "relock", "sys" };
+                                "mutex_destroy", "cond_destroy", "mutex_init", "cond_init", "relock", "sys", "pass" };
 
 typedef struct { int st, op, obj; volatile int go; pthread_t real; int detached; uint64_t obs; void *(*fn)(void *); void *arg; long nops; uint64_t hb, wake_hb; } thr_t;
 typedef struct { void *addr; int owner, destroyed; uint64_t rel_hb; } mtx_t;
@@ -159,8 +170,12 @@ static void schedule(void) {
     int me = cur;
     for (;;) {
         int opt[MAXT], nthr = 0, self = 0, spur[MAXT], nspur = 0;
-        if (T[me].st == ST_READY && enabled(me)) { opt[nthr++] = me; self = 1; }
-        for (int i = 0; i < nT; i++) if (i != me && enabled(i)) opt[nthr++] = i;
+        int passing = T[me].st == ST_READY && T[me].op == OP_PASS;      /* polling loop: everybody else first, and leaving it is no preemption */
+        if (!passing && T[me].st == ST_READY && enabled(me)) { opt[nthr++] = me; self = 1; }
+        for (int i = 0; i < nT; i++) if (i != me && enabled(i) && T[i].op != OP_PASS) opt[nthr++] = i;
+        /* fairness: threads that poll (OP_PASS) are only offered when no thread that makes progress is runnable */
+        if (nthr == 0 || (nthr == 1 && self)) for (int i = 0; i < nT; i++) if (i != me && enabled(i) && T[i].op == OP_PASS) opt[nthr++] = i;
+        if (passing && nthr == 0) opt[nthr++] = me;
         if (nthr == 0) {
             /* nobody can run */
             int alldone = 1, stuck = -1;
@@ -204,11 +219,11 @@ static void point(int op, int obj) {
 
 /* ---- wrapped pthread API ---- */
 int __wrap_pthread_mutex_init(pthread_mutex_t *m, const pthread_mutexattr_t *a) {
-    (void)a; if (!active) return 0;
+    if (!active) return __real_pthread_mutex_init(m, a);
     int i = find_m(m, 1); M[i].owner = -1; return 0;
 }
 int __wrap_pthread_mutex_destroy(pthread_mutex_t *m) {
-    if (!active) return 0;
+    if (!active) return __real_pthread_mutex_destroy(m);
     int i = find_m(m, 0); point(OP_MDESTROY, i);
     if (M[i].owner >= 0) sch_fail("SCH.destroy-busy", "SCH.destroy-busy|mutex", "T%d destroys mutex m%d while T%d holds it", cur, i, M[i].owner);
     for (int t = 0; t < nT; t++) if (t != cur && T[t].st == ST_READY && (T[t].op == OP_LOCK || T[t].op == OP_RELOCK) && T[t].obj == i)
@@ -216,7 +231,7 @@ int __wrap_pthread_mutex_destroy(pthread_mutex_t *m) {
     M[i].destroyed = 1; return 0;
 }
 int __wrap_pthread_mutex_lock(pthread_mutex_t *m) {
-    if (!active) return 0;
+    if (!active) return __real_pthread_mutex_lock(m);
     int i = find_m(m, 0);
     if (M[i].owner == cur) sch_fail("SCH.relock", "SCH.relock", "T%d locks mutex m%d it already holds", cur, i);
     point(OP_LOCK, i);
@@ -224,28 +239,28 @@ int __wrap_pthread_mutex_lock(pthread_mutex_t *m) {
     M[i].owner = cur; T[cur].hb = hbmix(T[cur].hb, M[i].rel_hb); TSAN_ACQ(m); return 0;
 }
 int __wrap_pthread_mutex_trylock(pthread_mutex_t *m) {
-    if (!active) return 0;
+    if (!active) return __real_pthread_mutex_trylock(m);
     int i = find_m(m, 0); point(OP_YIELD, i);
     if (M[i].owner >= 0) return EBUSY;
     M[i].owner = cur; T[cur].hb = hbmix(T[cur].hb, M[i].rel_hb); TSAN_ACQ(m); return 0;
 }
 int __wrap_pthread_mutex_unlock(pthread_mutex_t *m) {
-    if (!active) return 0;
+    if (!active) return __real_pthread_mutex_unlock(m);
     int i = find_m(m, 0);
     if (M[i].owner != cur) sch_fail("SCH.unlock-foreign", "SCH.unlock-foreign", "T%d unlocks mutex m%d owned by T%d", cur, i, M[i].owner);
     TSAN_REL(m); M[i].owner = -1; M[i].rel_hb = T[cur].hb;
     point(OP_UNLOCKED, i);          /* scheduling point right after the release */
     return 0;
 }
-int __wrap_pthread_cond_init(pthread_cond_t *c, const pthread_condattr_t *a) { (void)a; if (!active) return 0; find_c(c, 1); return 0; }
+int __wrap_pthread_cond_init(pthread_cond_t *c, const pthread_condattr_t *a) { if (!active) return __real_pthread_cond_init(c, a); find_c(c, 1); return 0; }
 int __wrap_pthread_cond_destroy(pthread_cond_t *c) {
-    if (!active) return 0;
+    if (!active) return __real_pthread_cond_destroy(c);
     int i = find_c(c, 0); point(OP_CDESTROY, i);
     if (C[i].nwait) sch_fail("SCH.destroy-busy", "SCH.destroy-busy|cond", "T%d destroys condition c%d while T%d waits on it", cur, i, C[i].waiters[0]);
     C[i].destroyed = 1; return 0;
 }
 int __wrap_pthread_cond_wait(pthread_cond_t *c, pthread_mutex_t *m) {
-    if (!active) return 0;
+    if (!active) return __real_pthread_cond_wait(c, m);
     int ci = find_c(c, 0), mi = find_m(m, 0);
     if (M[mi].owner != cur) sch_fail("SCH.wait-unlocked", "SCH.wait-unlocked", "T%d waits on c%d without holding m%d", cur, ci, mi);
     point(OP_CONDWAIT, ci);
@@ -265,7 +280,7 @@ static void wake_waiter(int ci, int k) {
     T[t].st = ST_READY; T[t].op = OP_RELOCK; T[t].obj = m; T[t].wake_hb = T[cur].hb;
 }
 int __wrap_pthread_cond_signal(pthread_cond_t *c) {
-    if (!active) return 0;
+    if (!active) return __real_pthread_cond_signal(c);
     int ci = find_c(c, 0); point(OP_SIGNAL, ci);
     if (C[ci].destroyed) sch_fail("SCH.use-after-destroy", "SCH.use-after-destroy|cond", "T%d signals destroyed condition c%d", cur, ci);
     if (C[ci].nwait) {
@@ -278,7 +293,7 @@ int __wrap_pthread_cond_signal(pthread_cond_t *c) {
     return 0;
 }
 int __wrap_pthread_cond_broadcast(pthread_cond_t *c) {
-    if (!active) return 0;
+    if (!active) return __real_pthread_cond_broadcast(c);
     int ci = find_c(c, 0); point(OP_BROADCAST, ci);
     if (C[ci].destroyed) sch_fail("SCH.use-after-destroy", "SCH.use-after-destroy|cond", "T%d broadcasts destroyed condition c%d", cur, ci);
     while (C[ci].nwait) wake_waiter(ci, 0);
@@ -319,6 +334,7 @@ int __wrap_pthread_join(pthread_t th, void **ret) {
     return __real_pthread_join(th, ret);
 }
 void sch_yield(void) { if (active) point(OP_YIELD, 0); }
+void sch_pass(void) { if (active) point(OP_PASS, 0); }
 
 /* ---- one execution (child process) ---- */
 static void child_run(void) {
